@@ -394,6 +394,9 @@ def sp_mutants(tier):
             sig = R.sign_k(l, oid, H, d, k)
             base = B.c_verify(l, oid, H, sig, B.pub(l, d))
             subs = {'sig': B.sig_subs(l, sig), 'pubkey': B.point_subs(l, base['pubkey']), 'oid_der': oid_subs(oid), 'hash': hash_subs(l, H)}
+            # the verifier's point R = (s1 + H) G + (s0 + 2^l) Q at infinity: s1 := -(s0 + 2^l) d - H (the standard's step "R = O -> reject")
+            s0i = B.dec(sig[:no // 2])
+            subs['sig'] = list(subs['sig']) + [('s1 := -(s0+2^l)d - H (R = O)', sig[:no // 2] + B.enc(l, (-(s0i + 2 ** l) * d - B.dec(H)) % q))]
             fields = ('oid_der', 'hash', 'sig', 'pubkey') if (main or full) else ()
             out += mutants(l, 'bignVerify', base, fields, main and allbits, subs, tag)
         # ---- bignIdExtract (the trusted party's ordinary signature of H0)
@@ -404,6 +407,8 @@ def sp_mutants(tier):
             sig = R.sign_k(l, oid, H0, d, k)
             base = B.c_idextract(l, oid, H0, sig, B.pub(l, d))
             subs = {'sig': B.sig_subs(l, sig), 'pubkey': B.point_subs(l, base['pubkey']), 'oid_der': oid_subs(oid), 'id_hash': hash_subs(l, H0)}
+            s0i = B.dec(sig[:no // 2])
+            subs['sig'] = list(subs['sig']) + [('s1 := -(s0+2^l)d - H0 (R = O)', sig[:no // 2] + B.enc(l, (-(s0i + 2 ** l) * d - B.dec(H0)) % q))]
             fields = ('oid_der', 'id_hash', 'sig', 'pubkey') if (main or full) else ()
             out += mutants(l, 'bignIdExtract', base, fields, main and allbits, subs, tag)
         # ---- bignIdVerify
